@@ -18,6 +18,7 @@
 
 #include <atomic>
 #include <sched.h>
+#include <time.h>
 #include <thread>
 
 namespace h
@@ -31,6 +32,8 @@ struct Case
     int max_len = 100;
     int yields = 0;      // extra yields inside the critical section after a competitor showed up
     int start_skew = 0;  // per-thread start delay in yields
+    int newlines = 0;    // 1: record bodies contain embedded line breaks
+    int stall_ms = 0;    // > 0: every 40th write stalls that long inside the critical section
     template <class A>
     void io(A& a)
     {
@@ -41,6 +44,8 @@ struct Case
         a("max_len", max_len);
         a("yields", yields);
         a("start_skew", start_skew);
+        a("newlines", newlines);
+        a("stall_ms", stall_ms);
     }
 };
 
@@ -54,7 +59,8 @@ std::string describe(const Case& c)
     std::ostringstream o;
     o << (c.sink ? "StdErrThreaded" : "stdout_mt") << ": " << c.threads << " threads x " << c.per_thread
       << " records, lengths 1.." << c.max_len << " (seed " << c.len_seed << "), " << c.yields
-      << " yields inside the critical section, start skew " << c.start_skew;
+      << " yields inside the critical section, start skew " << c.start_skew
+      << (c.newlines ? ", multi-line records" : "") << (c.stall_ms ? ", stalls of " + std::to_string(c.stall_ms) + " ms" : "");
     return o.str();
 }
 
@@ -68,6 +74,13 @@ Case generate(vf::Src& src, const std::string&)
     c.max_len = std::vector<int>{ 8, 100, 1000, 4000 }[src.index(4)];
     c.yields = src.irange(0, 20);
     c.start_skew = src.irange(0, 50);
+    c.newlines = src.coin(35) ? 1 : 0;
+    // a stream that stalls now and then (a blocked pipe, a slow terminal): waiters queue up for long
+    if (src.coin(12))
+    {
+        c.stall_ms = src.irange(120, 220);
+        c.per_thread = std::min(c.per_thread, 60);
+    }
     return c;
 }
 
@@ -79,8 +92,9 @@ struct RacyBuf : std::streambuf
 {
     std::string data; // deliberately unsynchronised
     std::atomic<int> inside{ 0 };
-    std::atomic<long> overlaps{ 0 }, contended{ 0 }, writes{ 0 };
+    std::atomic<long> overlaps{ 0 }, contended{ 0 }, writes{ 0 }, stalls{ 0 };
     int yields = 0;
+    int stall_ms = 0;
 
     void enter()
     {
@@ -113,7 +127,12 @@ struct RacyBuf : std::streambuf
             for (int i = 0; i < yields; ++i)
                 sched_yield();
         }
-        writes.fetch_add(1);
+        long w = writes.fetch_add(1);
+        if (stall_ms > 0 && w % 40 == 7 && stalls.fetch_add(1) < 3)
+        {
+            struct timespec ts = { 0, static_cast<long>(stall_ms) * 1000000L };
+            nanosleep(&ts, nullptr);
+        }
         data.append(s + half, static_cast<std::size_t>(n) - half);
         leave();
         return n;
@@ -151,6 +170,12 @@ using Filter = nitro::log::filter::null_filter<R>;
 using LogOut = nitro::log::logger<Record, Fmt, nitro::log::sink::stdout_mt, Filter>;
 using LogErr = nitro::log::logger<Record, Fmt, nitro::log::sink::StdErrThreaded, Filter>;
 
+// byte i of the body of a record: the thread's fill byte, with line breaks sprinkled in
+static char body_byte(const Case& c, char fill, int i)
+{
+    return c.newlines && i % 17 == 5 ? '\n' : fill;
+}
+
 static int length_of(const Case& c, int tid, int seq)
 {
     std::uint64_t x = static_cast<std::uint64_t>(c.len_seed) * 1000003u + static_cast<std::uint64_t>(tid) * 7919u +
@@ -169,6 +194,7 @@ std::string check(const Case& c0, vf::Ctx& ctx)
     c.max_len = std::max(1, std::min(c.max_len, 4000));
     RacyBuf buf;
     buf.yields = std::max(0, std::min(c.yields, 50));
+    buf.stall_ms = std::max(0, std::min(c.stall_ms, 400));
     std::ostream& target = c.sink ? std::cerr : std::cout;
     std::streambuf* old = target.rdbuf(&buf);
     attempting = 0;
@@ -185,6 +211,8 @@ std::string check(const Case& c0, vf::Ctx& ctx)
             {
                 int len = length_of(c, t, s);
                 std::string body(static_cast<std::size_t>(len), fill);
+                for (int i = 0; i < len; ++i)
+                    body[static_cast<std::size_t>(i)] = body_byte(c, fill, i);
                 attempting.fetch_add(1, std::memory_order_acq_rel);
                 if (c.sink)
                     LogErr::info() << "[t" << t << "#" << s << "|" << len << "|" << body << "]";
@@ -203,6 +231,10 @@ std::string check(const Case& c0, vf::Ctx& ctx)
     ctx.add("records", static_cast<std::uint64_t>(total));
     ctx.add("records:contended", static_cast<std::uint64_t>(contended));
     ctx.tag(c.sink ? "sink:stderr_mt" : "sink:stdout_mt");
+    if (c.newlines)
+        ctx.tag("records:multi-line");
+    if (c.stall_ms)
+        ctx.tag("stream:stalls");
     if (contended > 0)
         ctx.mark_nontrivial();
 
@@ -227,7 +259,7 @@ std::string check(const Case& c0, vf::Ctx& ctx)
         if (pos + static_cast<std::size_t>(len) + 2 > d.size())
             return "output ends inside a record (" + describe(c) + ")";
         for (int i = 0; i < len; ++i)
-            if (d[pos + static_cast<std::size_t>(i)] != fill)
+            if (d[pos + static_cast<std::size_t>(i)] != body_byte(c, fill, i))
                 return "bytes of two records interleave at byte " + std::to_string(pos + static_cast<std::size_t>(i)) +
                        ": " + vf::vis(d.substr(pos + static_cast<std::size_t>(i) > 20 ? pos + static_cast<std::size_t>(i) - 20 : 0, 60)) +
                        " (" + describe(c) + ")";
